@@ -33,8 +33,8 @@ func c16Aliases(r *Run) string {
 	r.Alias("$tail", "a0[iter:][(len(a0[iter:])-1)].Momentum")
 	r.Alias("$target", "$st.GetMomentumByHeight(($head.Height-1))#0")
 	r.Alias("$side", "ne($head.Previous(),$front.Identifier()) & ne(iter,len(a0))")
-	r.Alias("$blk", "a0[iter:][(iter+1)].AccountBlocks[(iter+1)]")
-	r.Alias("$det", "a0[iter:][(iter+1)]")
+	r.Alias("$blk", "a0[iter:][iter].AccountBlocks[iter]")
+	r.Alias("$det", "a0[iter:][iter]")
 
 	return ic
 }
@@ -89,10 +89,10 @@ func runC16(r *Run) {
 	r.Returns(ic, []string{
 		"iter, $st.GetMomentumByHeight(a0[iter].Momentum.Height)#1", "0, nil", "0, $st.GetFrontierMomentum()#1", "0, $st.GetMomentumByHeight(($head.Height-1))#1",
 		"0, errors.Errorf(…)",
-		"((iter+1)+iter), recv.supervisor.ApplyBlock($blk)#1",
-		"((iter+1)+iter), recv.chain.ForceAddAccountBlockTransaction($ins,recv.supervisor.ApplyBlock($blk)#0)",
-		"((iter+1)+iter), recv.supervisor.ApplyMomentum($det)#1",
-		"((iter+1)+iter), recv.chain.AddMomentumTransaction($ins,recv.supervisor.ApplyMomentum($det)#0)",
+		"(iter+iter), recv.supervisor.ApplyBlock($blk)#1",
+		"(iter+iter), recv.chain.ForceAddAccountBlockTransaction($ins,recv.supervisor.ApplyBlock($blk)#0)",
+		"(iter+iter), recv.supervisor.ApplyMomentum($det)#1",
+		"(iter+iter), recv.chain.AddMomentumTransaction($ins,recv.supervisor.ApplyMomentum($det)#0)",
 	}, "every failure in the apply loop reports index+start of the failing momentum; pre-loop refusals report 0")
 
 	// D20
@@ -101,7 +101,7 @@ func runC16(r *Run) {
 	// AddAccountBlocks (gossip path)
 	ab := "protocol.(chainBridge).AddAccountBlocks"
 	r.Order(ab, "vm.(*Supervisor).ApplyBlock", ".AddAccountBlockTransaction", "gossiped blocks are verified before they enter the pool")
-	r.Has(ab, "recv.chain.AddAccountBlockTransaction(recv.chain.AcquireInsert(…),recv.supervisor.ApplyBlock(a0[(iter+1)])#0)", "the pooled transaction is the supervisor's result for that block, under the fork-choice rule (not forced)")
+	r.Has(ab, "recv.chain.AddAccountBlockTransaction(recv.chain.AcquireInsert(…),recv.supervisor.ApplyBlock(a0[iter])#0)", "the pooled transaction is the supervisor's result for that block, under the fork-choice rule (not forced)")
 
 	// pool invalidation that the 'already pooled' shortcut relies on
 	r.Has("chain.(*accountPool).DeleteMomentum", "store recv.managers = make(map[types.Address]db.Manager)", "a rolled-back momentum invalidates the whole pool: an unconfirmed block verified against the abandoned branch must not survive as 'already applied'")
